@@ -363,3 +363,41 @@ def implied_atoms(guards, atoms):
         if len(vs) == 1:
             out[a] = vs.pop()
     return out
+
+
+def copy_kind(e, names):
+    """How the array expression e relates to the caller-owned arrays named in `names`:
+    'copy' (a new array), 'alias' (may be the caller's array or a view of it), None (does not involve them / unknown source)."""
+    if isinstance(e, ast.Name):
+        return 'alias' if e.id in names else None
+    if isinstance(e, ast.Subscript):
+        return 'alias' if copy_kind(e.value, names) == 'alias' else copy_kind(e.value, names)
+    if isinstance(e, ast.Attribute):
+        if e.attr in ('T', 'real', 'imag', 'flat', 'base'):
+            return copy_kind(e.value, names)
+        return None
+    if isinstance(e, ast.BinOp):
+        ks = [copy_kind(e.left, names), copy_kind(e.right, names)]
+        return 'copy' if any(ks) else None
+    if isinstance(e, ast.Call):
+        d = dotted(e.func) or ''
+        kw = {k.arg: k.value for k in e.keywords}
+        nocopy = 'copy' in kw and isinstance(kw['copy'], ast.Constant) and kw['copy'].value is False
+        if d in ('np.array', 'numpy.array', 'np.copy', 'numpy.copy', 'np.float64', 'copy.deepcopy', 'copy.copy', 'list', 'tuple') and e.args:
+            inner = copy_kind(e.args[0], names)
+            return ('alias' if nocopy else 'copy') if inner else None
+        if d in ('np.asarray', 'np.asanyarray', 'np.ascontiguousarray', 'np.asfortranarray', 'np.require', 'np.atleast_1d', 'np.atleast_2d',
+                 'np.ravel', 'np.reshape', 'np.squeeze', 'np.transpose', 'np.swapaxes', 'memoryview') and e.args:
+            return copy_kind(e.args[0], names)
+        if isinstance(e.func, ast.Attribute):
+            inner = copy_kind(e.func.value, names)
+            if inner:
+                if e.func.attr in ('copy', 'tolist', 'flatten'):
+                    return 'copy'
+                if e.func.attr == 'astype':
+                    return 'alias' if nocopy else 'copy'
+                if e.func.attr in ('reshape', 'ravel', 'view', 'squeeze', 'transpose', 'swapaxes'):
+                    return inner
+                return 'copy'
+        return None
+    return None
